@@ -169,8 +169,10 @@ theorem jac_create (E : Env) (hE : E.Covers) (exprs : List (String × Poly)) (hn
     get_map_val (fun kv => (E kv.2.symbols).map (fun n => (n, kv.2.diff n))) exprs o p hn hop]
   simp only [Option.getD_some]
   congr 1
+  rw [List.map_map]
   apply List.map_congr_left
   intro n hnm
+  simp only [Function.comp_def]
   rw [get_map_self (fun n => p.diff n) (E p.symbols) n hnm]
   simp only [Option.getD_some]
   rw [call_of_cover (p.diff n) (E p.symbols) ρ (fun s hs => hE _ _ (symbols_diff_subset p n s hs))]
